@@ -214,12 +214,24 @@ func runCase(d *Def, c *Case) (res Res) {
 	getoptions.Writer = &w
 	getoptions.VerifSetCompletionWriter(&cw)
 	getoptions.VerifSetExitFn(func(code int) { res.Exits = append(res.Exits, code) })
-	early := c.HasPre && c.PreEarly && c.Comp == "" && cfg.HelpOpt() != 0
+	// what the program did earlier with the same object: a Parse of other arguments, the Dispatch that follows it, and
+	// a look at the help of every command declared so far
+	earlier := func(b *Built) {
+		rest, err := b.Root.Parse(StringsOf(c.Pre))
+		if c.Disp && err == nil {
+			b.Root.Dispatch(b.Ctx(), rest)
+		}
+		for _, g := range b.GOpts {
+			if g != nil {
+				g.Help()
+			}
+		}
+		b.Ran = nil
+		w.Reset()
+	}
+	early := c.HasPre && c.PreEarly && c.Comp == "" && (cfg.HelpOpt() != 0 || cfg.OptsLate)
 	if early {
-		b = BuildWith(cfg, func(b *Built) {
-			b.Root.Parse(StringsOf(c.Pre))
-			w.Reset()
-		})
+		b = BuildWith(cfg, earlier)
 	} else {
 		b = Build(cfg)
 	}
@@ -245,8 +257,7 @@ func runCase(d *Def, c *Case) (res Res) {
 		}
 	}
 	if c.HasPre && c.Comp == "" && !early {
-		b.Root.Parse(StringsOf(c.Pre))
-		w.Reset()
+		earlier(b)
 	}
 	rest, err := b.Root.Parse(args)
 	if c.Comp != "" {
@@ -311,6 +322,14 @@ func runCase(d *Def, c *Case) (res Res) {
 			res.WOther = true
 		}
 		fmt.Fprintf(raw, "derr=%v dwriter=%q ran=%v|", derr, res.HelpTxt, res.Ran)
+	} else if c.Disp && err != nil && !c.HasPre {
+		// what programs do after a failed Parse: print the synopsis of where the parser got to (the documented pattern),
+		// or - carelessly - go on to Dispatch.  Neither may panic (C19) and both are repeatable (C20); what they print
+		// is not compared with anything else.
+		w.Reset()
+		syn := b.Root.Help(getoptions.HelpSynopsis)
+		derr := b.Root.Dispatch(b.Ctx(), nil)
+		fmt.Fprintf(raw, "afterfail synopsis=%q derr=%v dwriter=%q|", syn, derr, w.String())
 	}
 	return res
 }
